@@ -23,6 +23,9 @@ def jobs(tier):
         J.append(Job('rt-floor1-%s'%nm,'C05/rt_floor1.c',defs=['-DNPART=%d'%npart,'-DMAXC=%d'%maxc,'-DDMAX=%d'%dmax,'-DRB=%d'%rb,'-DPCLIST=%s'%(','.join(map(str,pc)) or '0'),'-DDIMLIST=%s'%','.join(map(str,dim)),'-DSUBLIST=%s'%','.join(map(str,sub)),'-DOGGPACK_MODEL_CAP=128'],
             unwind=max(17,npart*dmax+4),native_link=['-logg'],witnesses=['accepted'],models=M+['M-libc qsort = insertion sort (models/qsort_small.c)'],
             functions=['floor1_pack','floor1_unpack','icomp','floor1_free_info'],bounds='shape: partition classes %s, class dims %s, subclass bits %s, rangebits %d; books/posts/mult symbolic'%(pc,dim,sub,rb),weight=3))
+    for dm,qv in ([(2,3)] if q else [(1,5),(2,3),(2,5)]):
+        J.append(Job('besterror-d%d-q%d'%(dm,qv),'C05/besterror.c',defs=['-DDM=%d'%dm,'-DQVN=%d'%qv],unwind=max(qv**dm,8)+2,witnesses=['nearest used entry searched','direct hit'],
+            functions=['local_book_besterror'],models=[],bounds='lattice book dim %d x %d values, any used/unused pattern, vector components -12..12, delta 1..3'%(dm,qv),weight=2))
     # shared harnesses: window-flag agreement (C04 enc-step), managed truncation (C14 br-step), comment header layout (C16 cm-pack)
     c04=[j for j in _other('C04').jobs(tier) if j.name.startswith('enc-step')][:2 if q else 99]
     c14=[j for j in _other('C14').jobs(tier)][:1 if q else 4]
